@@ -12,6 +12,8 @@
 #ifndef NAKEN_ASM_DIRECTIVES_INCLUDE_H
 #define NAKEN_ASM_DIRECTIVES_INCLUDE_H
 
+#define MAX_NESTED_INCLUDES 64
+
 int binfile_parse(AsmContext *asm_context);
 int include_parse(AsmContext *asm_context);
 int include_add_path(AsmContext *asm_context, const char *paths);
